@@ -11,7 +11,7 @@ ID = 'C05'
 LEVEL = 'exploration'
 RUNS = {'quick': 16000, 'thorough': 300000}
 CHUNK = 50
-PROBES = ['pair_names_pid_zero', 'same_global_string_on_two_threads', 'undecoded_id_on_two_threads', 'huge_gap_inside_open_window', 'exit_string_repeats_learned_name', 'many_threads_pending', 'newthread_names_live_peer', 'peer_terminate_inside_open_window', 'switch_between_data_and_string', 'switch_between_data_and_string_both_threads', 'switch_between_lookup_chunks',
+PROBES = ['all_threads_one_process', 'stray_end_of_call_open_on_peer', 'pair_names_pid_zero', 'same_global_string_on_two_threads', 'undecoded_id_on_two_threads', 'huge_gap_inside_open_window', 'exit_string_repeats_learned_name', 'many_threads_pending', 'newthread_names_live_peer', 'peer_terminate_inside_open_window', 'switch_between_data_and_string', 'switch_between_data_and_string_both_threads', 'switch_between_lookup_chunks',
           'switch_between_string_chunks', 'switch_after_start', 'switch_inside_sample', 'three_or_more_threads',
           'dropped_record']
 RULE = ('one run = 2..6 thread programs, each executed solo (baseline) and merged under 6 seeded schedules of different '
@@ -67,7 +67,7 @@ def generate(rng, index, tier):
     if index % 499 == 3:
         # many threads: every one announces a thread/process (data record, then its name string); with a round-robin merge
         # all data records are pending at once before the first string arrives
-        n = [34, 70, 140, 300, worlds.dict_size(rng, 70000) or 600][(index // 499) % 5]
+        n = [34, 70, 140, 300, worlds.dict_size(rng, 70000, k=(index // 499) // 5) or 600][(index // 499) % 5]
         threads = []
         for ti in range(n):
             ctx = worlds.Ctx(ti, 1000 + ti)
@@ -134,6 +134,34 @@ def generate(rng, index, tier):
             a, b = rng.sample(range(len(threads)), 2)
             born = [op['ops'][0]['a'][0] for op in threads[b]['ops'] if op.get('k') == 'seq' and op['ops'] and op['ops'][0].get('name') == 'TRACE_DATA_NEWTHREAD']
             r3 = rng.random()
+            if r3 >= 0.82:
+                ids_ = worlds.catalog()['ids']
+                if r3 < 0.91:
+                    # thread b logs the END of a call it never started while thread a (maybe of the same process) has that very
+                    # call open: prefer calls the core source files mention by name
+                    special = [n for n in _core_names() if n in ids_ and n in worlds.catalog()['fam']]
+                    wins = [op for op in threads[a]['ops'] if op.get('k') == 'sys' and not op.get('noend')]
+                    if special and (not wins or rng.chance(0.7)):
+                        nm = rng.pick(special)
+                        s_, e_ = worlds.domains.draw(rng, nm)
+                        k_ = worlds.catalog()['path_names'].get(nm, 0)
+                        w_ = {'k': 'sys', 'name': nm, 's': s_, 'e': e_, 'in': [worlds.op_lookup(rng) for _k in range(k_)] + [worlds.op_single(rng, 'MACH_MKRUNNABLE')]}
+                        threads[a]['ops'].insert(rng.randrange(len(threads[a]['ops']) + 1), w_)
+                        wins = [w_]
+                    if wins:
+                        w_ = rng.pick(wins)
+                        pert = {'k': 'raw', 'id': ids_[w_['name']], 'q': 2, 'a': list(w_['e'])}
+                    else:
+                        pert = worlds.op_single(rng, 'MACH_MKRUNNABLE')
+                else:
+                    # the first half of an announcement whose second half is outside the capture, for the pid a peer's pair names
+                    pr = [op['ops'][0] for op in threads[b]['ops'] if op.get('k') == 'seq' and len(op['ops']) == 2 and op['ops'][0].get('name', '').startswith('TRACE_DATA')]
+                    pid_ = (pr[0]['a'][1] if pr[0]['name'] == 'TRACE_DATA_NEWTHREAD' else pr[0]['a'][0]) if pr else 73000 + rng.randrange(9)
+                    pert = {'k': 'one', 'name': rng.pick(['TRACE_DATA_EXEC', 'TRACE_DATA_EXEC', 'TRACE_DATA_NEWTHREAD']), 'q': 0, 'a': [pid_, rng.word(), rng.word(), 0]}
+                    if pert['name'] == 'TRACE_DATA_NEWTHREAD':
+                        pert['a'] = [880000 + rng.randrange(99), pid_, 0, rng.word()]
+                threads[a if pert.get('k') != 'raw' else b]['ops'].insert(rng.randrange(len(threads[a if pert.get('k') != 'raw' else b]['ops']) + 1), pert)
+                continue
             pairs_b = [(op['ops'][0]['a'][1] if op['ops'][0]['name'] == 'TRACE_DATA_NEWTHREAD' else op['ops'][0]['a'][0], op['ops'][1]['a'])
                        for op in threads[b]['ops'] if op.get('k') == 'seq' and len(op['ops']) == 2 and op['ops'][0].get('name', '').startswith('TRACE_DATA')]
             if pairs_b and r3 < 0.25:
@@ -162,12 +190,30 @@ def generate(rng, index, tier):
     if changed:
         per = kernel.expand_threads(threads, ids)
         schedules = [draw_sensitive(rng, per, table) for _ in range(4)] + [kernel.draw_schedule(rng, per, 'uniform'), kernel.draw_schedule(rng, per, 'rr1')]
-    return {'threads': threads, 'schedules': schedules, 'faults': faults, 'tsmode': worlds.draw_tsmode(rng)}
+    return {'threads': threads, 'schedules': schedules, 'faults': faults, 'tsmode': worlds.draw_tsmode(rng),
+            'same_process': rng.chance(0.3)}     # the parser starts from a thread map that puts all threads into one process
 
 
-def _run(table, stream):
+_core = None
+
+
+def _core_names():
+    """Event names that the core source files of the tree under test mention as string constants (outside the decoder tables)."""
+    global _core
+    if _core is None:
+        d = worlds.dictionary()
+        seen = []
+        for f in ('traces_parser.py', 'pykdebugparser.py', 'callstacks_parser.py', 'kd_buf_parser.py', '__main__.py'):
+            for x in d['strs_by_file'].get(f, []):
+                if x not in seen:
+                    seen.append(x)
+        _core = seen
+    return _core
+
+
+def _run(table, stream, init_tp=None):
     """Feed a stream to a fresh parser; returns (per-tid list of [type, origins, text], pids_names, threads_pids)."""
-    tp, pn = {}, {}
+    tp, pn = dict(init_tp or {}), {}
     parser = tool.tp_mod.TracesParser(table, tp, pn)
     events = worlds.kevents_of(stream)
     origin = {id(e): r['o'] for e, r in zip(events, stream)}
@@ -222,10 +268,17 @@ def execute(scn):
                 und.setdefault(r['id'], set()).add(ti)
             if nm in ('TRACE_DATA_NEWTHREAD', 'TRACE_DATA_EXEC') and r['a'][1 if nm == 'TRACE_DATA_NEWTHREAD' else 0] == 0:
                 bump('probe:pair_names_pid_zero')
+    started = [{r['id'] for r in p if r['q'] == 1} for p in per]
+    if any(r['q'] == 2 and r['o'].endswith('/r') and any(r['id'] in started[tj] for tj in range(len(per)) if tj != ti)
+           for ti, p in enumerate(per) for r in p):
+        bump('probe:stray_end_of_call_open_on_peer')
     if any(len(v) >= 2 for v in gsk.values()):
         bump('probe:same_global_string_on_two_threads')
     if any(len(v) >= 2 for v in und.values()):
         bump('probe:undecoded_id_on_two_threads')
+    init_tp = {th['tid']: 4242 for th in scn['threads']} if scn.get('same_process') else None
+    if init_tp:
+        bump('probe:all_threads_one_process')
     viols = []
     hist = []
     base = {}
@@ -236,7 +289,7 @@ def execute(scn):
     for ti, p in enumerate(per):
         stream = kernel.merge([p], [])
         try:
-            out, pn, tp = _run(table, stream)
+            out, pn, tp = _run(table, stream, init_tp)
         except Exception as e:
             # a decoder that raises on a thread's own records is C07's subject, not an interleaving effect
             solo_failed = True
@@ -290,7 +343,7 @@ def execute(scn):
         if len(sw_ds) >= 2:
             bump('probe:switch_between_data_and_string_both_threads')
         try:
-            out, pn, tp = _run(table, stream)
+            out, pn, tp = _run(table, stream, init_tp)
         except Exception as e:
             from .common import exc_sig
             viols.append({'tag': 'merged-run-raises', 'sig': exc_sig(e),
